@@ -1210,8 +1210,9 @@ impl WasmGenerator {
                         // Load condition and convert to i32 for WASM if instruction.
                         // The native VM uses JmpIfNeg which jumps to else when cond <= 0.0,
                         // so the then-branch is taken when cond > 0.0.
-                        self.emit_value_load(cond, wasm_func);
-                        if self.infer_value_type(cond) == ValType::F64 {
+                        let cond_type = self.scalar_operand_type(cond);
+                        self.emit_scalar_operand(cond, cond_type, wasm_func);
+                        if cond_type == ValType::F64 {
                             // cond > 0.0 means then-branch (matching VM's JmpIfNeg semantics)
                             wasm_func.instruction(&W::F64Const(0.0));
                             wasm_func.instruction(&W::F64Gt);
@@ -1422,8 +1423,9 @@ impl WasmGenerator {
 
                     let phi_info = Self::find_phi_in_block(&ctx.blocks[merge_idx]);
 
-                    self.emit_value_load(cond, func);
-                    if self.infer_value_type(cond) == ValType::F64 {
+                    let cond_type = self.scalar_operand_type(cond);
+                    self.emit_scalar_operand(cond, cond_type, func);
+                    if cond_type == ValType::F64 {
                         func.instruction(&W::F64Const(0.0));
                         func.instruction(&W::F64Gt);
                     } else {
@@ -1515,8 +1517,9 @@ impl WasmGenerator {
 
                     let phi_info = Self::find_phi_in_block(&ctx.blocks[merge_idx]);
 
-                    self.emit_value_load(cond, func);
-                    if self.infer_value_type(cond) == ValType::F64 {
+                    let cond_type = self.scalar_operand_type(cond);
+                    self.emit_scalar_operand(cond, cond_type, func);
+                    if cond_type == ValType::F64 {
                         func.instruction(&W::F64Const(0.0));
                         func.instruction(&W::F64Gt);
                     } else {
@@ -1640,8 +1643,9 @@ impl WasmGenerator {
 
                 let phi_info = Self::find_phi_in_block(&ctx.blocks[merge_idx]);
 
-                self.emit_value_load(cond, func);
-                if self.infer_value_type(cond) == ValType::F64 {
+                let cond_type = self.scalar_operand_type(cond);
+                self.emit_scalar_operand(cond, cond_type, func);
+                if cond_type == ValType::F64 {
                     func.instruction(&W::F64Const(0.0));
                     func.instruction(&W::F64Gt);
                 } else {
@@ -2501,9 +2505,9 @@ impl WasmGenerator {
             // Boolean operations (results are i32 in WASM, extended to i64 for register storage)
             // Operands can be f64 or i64; we check operand type to emit correct comparison.
             I::Eq(a, b) => {
-                let op_type = self.infer_value_type(a);
-                self.emit_value_load_typed(a, op_type, func);
-                self.emit_value_load_typed(b, op_type, func);
+                let op_type = self.scalar_operand_type(a);
+                self.emit_scalar_operand(a, op_type, func);
+                self.emit_scalar_operand(b, op_type, func);
                 if op_type == ValType::F64 {
                     func.instruction(&W::F64Eq);
                 } else {
@@ -2512,9 +2516,9 @@ impl WasmGenerator {
                 func.instruction(&W::F64ConvertI32U);
             }
             I::Ne(a, b) => {
-                let op_type = self.infer_value_type(a);
-                self.emit_value_load_typed(a, op_type, func);
-                self.emit_value_load_typed(b, op_type, func);
+                let op_type = self.scalar_operand_type(a);
+                self.emit_scalar_operand(a, op_type, func);
+                self.emit_scalar_operand(b, op_type, func);
                 if op_type == ValType::F64 {
                     func.instruction(&W::F64Ne);
                 } else {
@@ -2523,9 +2527,9 @@ impl WasmGenerator {
                 func.instruction(&W::F64ConvertI32U);
             }
             I::Lt(a, b) => {
-                let op_type = self.infer_value_type(a);
-                self.emit_value_load_typed(a, op_type, func);
-                self.emit_value_load_typed(b, op_type, func);
+                let op_type = self.scalar_operand_type(a);
+                self.emit_scalar_operand(a, op_type, func);
+                self.emit_scalar_operand(b, op_type, func);
                 if op_type == ValType::F64 {
                     func.instruction(&W::F64Lt);
                 } else {
@@ -2534,9 +2538,9 @@ impl WasmGenerator {
                 func.instruction(&W::F64ConvertI32U);
             }
             I::Le(a, b) => {
-                let op_type = self.infer_value_type(a);
-                self.emit_value_load_typed(a, op_type, func);
-                self.emit_value_load_typed(b, op_type, func);
+                let op_type = self.scalar_operand_type(a);
+                self.emit_scalar_operand(a, op_type, func);
+                self.emit_scalar_operand(b, op_type, func);
                 if op_type == ValType::F64 {
                     func.instruction(&W::F64Le);
                 } else {
@@ -2545,9 +2549,9 @@ impl WasmGenerator {
                 func.instruction(&W::F64ConvertI32U);
             }
             I::Gt(a, b) => {
-                let op_type = self.infer_value_type(a);
-                self.emit_value_load_typed(a, op_type, func);
-                self.emit_value_load_typed(b, op_type, func);
+                let op_type = self.scalar_operand_type(a);
+                self.emit_scalar_operand(a, op_type, func);
+                self.emit_scalar_operand(b, op_type, func);
                 if op_type == ValType::F64 {
                     func.instruction(&W::F64Gt);
                 } else {
@@ -2556,9 +2560,9 @@ impl WasmGenerator {
                 func.instruction(&W::F64ConvertI32U);
             }
             I::Ge(a, b) => {
-                let op_type = self.infer_value_type(a);
-                self.emit_value_load_typed(a, op_type, func);
-                self.emit_value_load_typed(b, op_type, func);
+                let op_type = self.scalar_operand_type(a);
+                self.emit_scalar_operand(a, op_type, func);
+                self.emit_scalar_operand(b, op_type, func);
                 if op_type == ValType::F64 {
                     func.instruction(&W::F64Ge);
                 } else {
@@ -2926,8 +2930,11 @@ impl WasmGenerator {
                         memory_index: 0,
                     };
                     func.instruction(&W::I32Const(temp_addr as i32));
-                    self.emit_value_load(value, func);
-                    match Self::type_to_valtype(&ty.to_type()) {
+                    // The fed-back value may be a tuple/record projection (a GetElement
+                    // register holding an element ADDRESS): load it as a value of its type.
+                    let vt = Self::type_to_valtype(&ty.to_type());
+                    self.emit_value_load_typed(value, vt, func);
+                    match vt {
                         ValType::F64 => func.instruction(&W::F64Store(memarg)),
                         _ => func.instruction(&W::I64Store(memarg)),
                     };
@@ -2952,7 +2959,12 @@ impl WasmGenerator {
                 }
 
                 // Push the return value onto the stack (ReturnFeed acts as Return)
-                self.emit_value_load(value, func);
+                if size <= 1 {
+                    let vt = Self::type_to_valtype(&ty.to_type());
+                    self.emit_value_load_typed(value, vt, func);
+                } else {
+                    self.emit_value_load(value, func);
+                }
             }
 
             I::Delay(len, input, time) => {
@@ -4210,6 +4222,30 @@ impl WasmGenerator {
             // Value is f64 but an i64 is expected; reinterpret bits
             // (preserves float bit pattern for storage in i64 word slots)
             func.instruction(&W::I64ReinterpretF64);
+        }
+    }
+
+    /// Type of `value` when it is used as a scalar operand (comparison operand, branch
+    /// condition): a GetElement register holds the ADDRESS of a tuple/record element, and the
+    /// operand is the element itself, so its type is the element's type.
+    fn scalar_operand_type(&mut self, value: &VPtr) -> ValType {
+        if let mir::Value::Register(reg_idx) = value.as_ref()
+            && let Some(vt) = self.getelement_registers.get(reg_idx)
+        {
+            return *vt;
+        }
+        self.infer_value_type(value)
+    }
+
+    /// Load `value` as a scalar operand of type `expected`, going through the element address
+    /// when `value` is a GetElement register (see `scalar_operand_type`).
+    fn emit_scalar_operand(&mut self, value: &VPtr, expected: ValType, func: &mut Function) {
+        let is_element_addr = matches!(value.as_ref(), mir::Value::Register(reg_idx)
+            if self.getelement_registers.contains_key(reg_idx));
+        if is_element_addr {
+            self.emit_value_load_deref(value, expected, func);
+        } else {
+            self.emit_value_load_typed(value, expected, func);
         }
     }
 
